@@ -1,3 +1,787 @@
-//! C34, upper-layer part (filled in below).
+//! C34, upper-layer part: write_pdu, read_pdu_from_wire(_async), association establish / send /
+//! receive / release / abort (client and server, sync and async, through the `verif-hooks`
+//! generic-transport constructors), PDataWriter::{write, finish}, AsyncPDataWriter, PDataReader.
+//!
+//! Every operation runs over a scripted duplex transport (a `SpyRead` fed with reference-encoded
+//! PDUs and a `TapWrite`); faults are injected on the write side (Err at call i, Err after b bytes,
+//! Ok(0) at call i) and on the read side (Err at call i, Err after b bytes). The async transports
+//! are always ready (Pending is the subject of C26/C27, not a failure).
+
+use crate::*;
+use bytes::BytesMut;
+use dicom_ul::association::{
+    read_pdu_from_wire, read_pdu_from_wire_async, AsyncAssociation, AsyncPDataWriter, CloseSocket, PDataReader, PDataWriter,
+    SyncAssociation,
+};
+use dicom_ul::pdu::Pdu;
+use dicom_ul::{read_pdu, write_pdu, ClientAssociationOptions, ServerAssociationOptions};
+use std::pin::Pin;
+use std::sync::OnceLock;
+use std::task::{Context, Poll};
+use tokio::io::{AsyncRead, AsyncReadExt, AsyncWrite, AsyncWriteExt, ReadBuf};
 use vx_kit::Check;
-pub fn run(_check: &Check) {}
+use vx_ref::pdu::{self as rp, RAssocHead, RPcAc, RPcRq, RPdu, RPdv, RUserItem};
+
+const ABSTRACT: &str = "1.2.840.10008.1.1";
+const IMPLICIT: &str = "1.2.840.10008.1.2";
+/// maximum PDU length used on both sides (so that the ~20 KiB P-DATA PDU is admissible)
+const MAXLEN: u32 = 32_768 - 6;
+const SMALL_MAX: u32 = 1_024 - 6;
+
+// ---------------------------------------------------------------------------------------------
+// transports
+// ---------------------------------------------------------------------------------------------
+
+pub struct Duplex {
+    pub r: SpyRead,
+    pub w: TapWrite,
+}
+impl Read for Duplex {
+    fn read(&mut self, buf: &mut [u8]) -> io::Result<usize> {
+        self.r.read(buf)
+    }
+}
+impl Write for Duplex {
+    fn write(&mut self, buf: &[u8]) -> io::Result<usize> {
+        self.w.write(buf)
+    }
+    fn flush(&mut self) -> io::Result<()> {
+        self.w.flush()
+    }
+}
+impl CloseSocket for Duplex {
+    fn close(&mut self) -> io::Result<()> {
+        Ok(())
+    }
+}
+
+/// Always-ready async view of a scripted reader.
+pub struct ARead(pub SpyRead);
+impl AsyncRead for ARead {
+    fn poll_read(mut self: Pin<&mut Self>, _cx: &mut Context<'_>, buf: &mut ReadBuf<'_>) -> Poll<io::Result<()>> {
+        let dst = buf.initialize_unfilled();
+        match self.0.read(dst) {
+            Ok(n) => {
+                buf.advance(n);
+                Poll::Ready(Ok(()))
+            }
+            Err(e) => Poll::Ready(Err(e)),
+        }
+    }
+}
+/// Always-ready async view of a scripted writer.
+pub struct AWrite(pub TapWrite);
+impl AsyncWrite for AWrite {
+    fn poll_write(mut self: Pin<&mut Self>, _cx: &mut Context<'_>, buf: &[u8]) -> Poll<io::Result<usize>> {
+        Poll::Ready(self.0.write(buf))
+    }
+    fn poll_flush(mut self: Pin<&mut Self>, _cx: &mut Context<'_>) -> Poll<io::Result<()>> {
+        Poll::Ready(self.0.flush())
+    }
+    fn poll_shutdown(self: Pin<&mut Self>, _cx: &mut Context<'_>) -> Poll<io::Result<()>> {
+        Poll::Ready(Ok(()))
+    }
+}
+pub struct ADuplex {
+    pub r: ARead,
+    pub w: AWrite,
+}
+impl AsyncRead for ADuplex {
+    fn poll_read(mut self: Pin<&mut Self>, cx: &mut Context<'_>, buf: &mut ReadBuf<'_>) -> Poll<io::Result<()>> {
+        Pin::new(&mut self.r).poll_read(cx, buf)
+    }
+}
+impl AsyncWrite for ADuplex {
+    fn poll_write(mut self: Pin<&mut Self>, cx: &mut Context<'_>, buf: &[u8]) -> Poll<io::Result<usize>> {
+        Pin::new(&mut self.w).poll_write(cx, buf)
+    }
+    fn poll_flush(mut self: Pin<&mut Self>, cx: &mut Context<'_>) -> Poll<io::Result<()>> {
+        Pin::new(&mut self.w).poll_flush(cx)
+    }
+    fn poll_shutdown(mut self: Pin<&mut Self>, cx: &mut Context<'_>) -> Poll<io::Result<()>> {
+        Pin::new(&mut self.w).poll_shutdown(cx)
+    }
+}
+
+fn rt() -> &'static tokio::runtime::Runtime {
+    static RT: OnceLock<tokio::runtime::Runtime> = OnceLock::new();
+    // multi-thread flavour: `Drop for AsyncPDataWriter` calls `block_in_place`
+    RT.get_or_init(|| tokio::runtime::Builder::new_multi_thread().worker_threads(2).enable_all().build().expect("tokio runtime"))
+}
+fn block<F: std::future::Future>(f: F) -> F::Output {
+    rt().block_on(f)
+}
+
+// ---------------------------------------------------------------------------------------------
+// duplex fault enumeration
+// ---------------------------------------------------------------------------------------------
+
+struct DRun {
+    result: Result<Result<(), String>, String>,
+    w_fired: bool,
+    r_fired: bool,
+    accepted: Vec<u8>,
+    w_calls: usize,
+    w_log: Vec<(bool, usize)>,
+    r_calls: usize,
+    delivered: usize,
+}
+
+fn run_duplex<F>(op: &F, input: &[u8], segs: &[usize], wf: Option<WriteFault>, rf: Option<ReadFault>) -> DRun
+where
+    F: Fn(SpyRead, TapWrite) -> Result<(), String>,
+{
+    let mut sr = if segs.is_empty() { ScriptRead::whole(input.to_vec()) } else { ScriptRead::segmented(input.to_vec(), segs.to_vec()) };
+    match rf {
+        Some(ReadFault::ErrAtCall(i)) => sr.fail_at_call = Some(i),
+        Some(ReadFault::ErrAfterBytes(b)) => sr.fail_after_bytes = Some(b),
+        None => {}
+    }
+    let fired = Arc::new(AtomicBool::new(false));
+    let calls = Arc::new(Mutex::new(0usize));
+    let delivered = Arc::new(Mutex::new(0usize));
+    let spy = SpyRead { inner: sr, fired: fired.clone(), calls: calls.clone(), delivered: delivered.clone() };
+    let w = TapWrite::new(wf);
+    let h = w.clone();
+    let result = guard(|| op(spy, w));
+    let w_log = h.log.lock().unwrap().clone();
+    let r_calls = *calls.lock().unwrap();
+    let d = *delivered.lock().unwrap();
+    DRun {
+        result,
+        w_fired: h.inner.fault_fired(),
+        r_fired: fired.load(Ordering::SeqCst),
+        accepted: h.inner.bytes(),
+        w_calls: h.inner.call_count(),
+        w_log,
+        r_calls,
+        delivered: d,
+    }
+}
+
+#[derive(Clone, Copy)]
+enum DFault {
+    W(WriteFault),
+    R(ReadFault),
+}
+
+/// Enumerate every write and read fault point of one operation over a duplex transport.
+pub fn enumerate_duplex<F, V>(l: &mut Local, base_id: &str, class: &Value, all_limit: usize, input: &[u8], segs: &[usize], op: &F, validate: &V)
+where
+    F: Fn(SpyRead, TapWrite) -> Result<(), String>,
+    V: Fn(&[u8]) -> Result<(), String>,
+{
+    let r0 = run_duplex(op, input, segs, None, None);
+    match &r0.result {
+        Ok(Ok(())) => {}
+        Ok(Err(e)) => {
+            l.check.machinery_error(&format!("{base_id}: fault-free run returned Err: {}", short(e)));
+            return;
+        }
+        Err(p) => {
+            l.check.machinery_error(&format!("{base_id}: fault-free run panicked: {}", short(p)));
+            return;
+        }
+    }
+    if let Err(m) = validate(&r0.accepted) {
+        l.check.machinery_error(&format!("{base_id}: fault-free output does not parse: {}", short(&m)));
+        return;
+    }
+    let free_id = format!("{base_id}/free");
+    if l.want(&free_id) {
+        l.eval();
+        l.outcome_with("fault-free-ok", || {
+            json!({"case": free_id, "write_calls": r0.w_calls, "written": r0.accepted.len(), "read_calls": r0.r_calls, "read": r0.delivered})
+        });
+    }
+    let mut plan: Vec<DFault> = vec![];
+    let wb: Vec<usize> = r0.w_log.iter().map(|x| x.1).collect();
+    for i in 0..r0.w_calls {
+        plan.push(DFault::W(WriteFault::ErrAtCall(i)));
+    }
+    for b in byte_points(r0.accepted.len(), &wb, all_limit) {
+        plan.push(DFault::W(WriteFault::ErrAfterBytes(b)));
+    }
+    for i in 0..r0.w_calls {
+        plan.push(DFault::W(WriteFault::ZeroAtCall(i)));
+    }
+    for i in 0..r0.r_calls {
+        plan.push(DFault::R(ReadFault::ErrAtCall(i)));
+    }
+    let mut rbounds: Vec<usize> = vec![];
+    let mut acc = 0;
+    for s in segs {
+        acc += s;
+        rbounds.push(acc);
+    }
+    rbounds.extend((0..=r0.delivered / 8192).map(|k| k * 8192));
+    for b in byte_points(r0.delivered, &rbounds, all_limit) {
+        plan.push(DFault::R(ReadFault::ErrAfterBytes(b)));
+    }
+    for f in plan {
+        let (label, dir, kind) = match f {
+            DFault::W(w) => (fault_label(w), "write", fault_kind(w)),
+            DFault::R(r) => (
+                read_fault_label(r),
+                "read",
+                match r {
+                    ReadFault::ErrAtCall(_) => "err-at-call",
+                    ReadFault::ErrAfterBytes(_) => "err-after-bytes",
+                },
+            ),
+        };
+        let case_id = format!("{base_id}/{label}");
+        if !l.want(&case_id) {
+            continue;
+        }
+        l.eval();
+        let run = match f {
+            DFault::W(w) => run_duplex(op, input, segs, Some(w), None),
+            DFault::R(r) => run_duplex(op, input, segs, None, Some(r)),
+        };
+        let fired = run.w_fired || run.r_fired;
+        if run.w_fired {
+            crate::fired(2);
+        }
+        if run.r_fired {
+            crate::fired(3);
+        }
+        let call_kind = match f {
+            DFault::W(WriteFault::ErrAtCall(i)) | DFault::W(WriteFault::ZeroAtCall(i)) => {
+                if r0.w_log.get(i).map(|x| x.0).unwrap_or(false) { "flush" } else { "write" }
+            }
+            DFault::W(_) => "write",
+            DFault::R(_) => "read",
+        };
+        let cls = |extra: Value| merge(&merge(class, json!({"dir": dir, "fault": kind, "fault_call": call_kind})), extra);
+        let detail = |msg: &str| {
+            json!({"fault": label, "fault_free": {"write_calls": r0.w_calls, "written": r0.accepted.len(), "read_calls": r0.r_calls, "read": r0.delivered},
+                   "this_run": {"write_calls": run.w_calls, "written": run.accepted.len(), "read_calls": run.r_calls, "read": run.delivered},
+                   "message": msg, "input_head": hex_head(input), "fault_free_output_head": hex_head(&r0.accepted)})
+        };
+        match &run.result {
+            Err(p) => {
+                l.nontrivial(&case_id);
+                l.outcome(&format!("{dir}-fault/panic"));
+                l.fail(&case_id, cls(json!({"kind": "panic"})), detail(&short(p)));
+            }
+            Ok(Ok(())) if fired => {
+                l.nontrivial(&case_id);
+                l.outcome(&format!("{dir}-fault/ok-despite-fault"));
+                l.fail(
+                    &case_id,
+                    cls(json!({"kind": "ok-despite-fault", "accepted_all_bytes": run.accepted == r0.accepted})),
+                    detail("operation sequence returned Ok although the transport failed"),
+                );
+            }
+            Ok(Err(e)) if fired => {
+                l.nontrivial(&case_id);
+                l.outcome_with(&format!("{dir}-fault/err-reported"), || json!({"case": case_id, "error": short(e)}));
+            }
+            Ok(Ok(())) => {
+                if run.accepted != r0.accepted || run.delivered != r0.delivered {
+                    l.nontrivial(&case_id);
+                    l.outcome(&format!("{dir}-fault/ok-on-truncated-transfer"));
+                    l.fail(&case_id, cls(json!({"kind": "ok-on-truncated-transfer"})), detail("Ok returned with fewer bytes transferred than the fault-free run and no Err seen"));
+                } else {
+                    l.outcome(&format!("{dir}-fault/not-reached-ok"));
+                }
+            }
+            Ok(Err(e)) => match f {
+                DFault::R(_) => l.outcome("read-fault/err-before-fault-point"),
+                DFault::W(_) => l.check.machinery_error(&format!("{case_id}: fault not fired but operation returned Err: {}", short(e))),
+            },
+        }
+    }
+}
+
+fn err_s<E: std::fmt::Debug>(e: E) -> String {
+    format!("{e:?}").chars().take(240).collect()
+}
+
+// ---------------------------------------------------------------------------------------------
+// PDUs
+// ---------------------------------------------------------------------------------------------
+
+fn noise(n: usize) -> Vec<u8> {
+    let mut x: u32 = 0x1234_5678;
+    (0..n)
+        .map(|_| {
+            x = x.wrapping_mul(1_664_525).wrapping_add(1_013_904_223);
+            (x >> 24) as u8
+        })
+        .collect()
+}
+
+fn user_items() -> Vec<RUserItem> {
+    vec![
+        RUserItem::MaxLength(MAXLEN),
+        RUserItem::ImplClassUid(b"1.2.3.4".to_vec()),
+        RUserItem::ImplVersionName(b"VXFAULT".to_vec()),
+    ]
+}
+
+fn arq() -> RPdu {
+    let mut head = RAssocHead::new("ANY-SCP", "VX-SCU");
+    head.user_info = Some(user_items());
+    RPdu::AssociateRq {
+        head,
+        pcs: vec![RPcRq { id: 1, abstract_syntax: ABSTRACT.as_bytes().to_vec(), transfer_syntaxes: vec![IMPLICIT.as_bytes().to_vec()] }],
+    }
+}
+fn aac() -> RPdu {
+    let mut head = RAssocHead::new("ANY-SCP", "VX-SCU");
+    head.user_info = Some(user_items());
+    RPdu::AssociateAc { head, pcs: vec![RPcAc { id: 1, result: 0, transfer_syntax: IMPLICIT.as_bytes().to_vec() }] }
+}
+
+/// (name, PDU) for each PDU kind
+pub fn pdus() -> Vec<(&'static str, RPdu)> {
+    vec![
+        ("ARQ", arq()),
+        ("AAC", aac()),
+        ("ARJ", RPdu::AssociateRj { result: 1, source: 1, reason: 1 }),
+        ("DATA-1", RPdu::PData(vec![RPdv::new(1, false, true, vec![1, 2, 3, 4, 5, 6])])),
+        ("DATA-2pdv", RPdu::PData(vec![RPdv::new(1, true, true, vec![9; 10]), RPdv::new(1, false, false, vec![7; 5])])),
+        ("DATA-20k", RPdu::PData(vec![RPdv::new(1, false, true, noise(20_000))])),
+        ("RRQ", RPdu::ReleaseRq),
+        ("RRP", RPdu::ReleaseRp),
+        ("ABORT", RPdu::Abort { source: 2, reason: 0 }),
+    ]
+}
+
+fn enc(p: &RPdu) -> Vec<u8> {
+    rp::encode(p).expect("reference encode")
+}
+
+/// dicom-ul value of a reference PDU (obtained the way users obtain one: by decoding)
+fn to_ul(p: &RPdu) -> Pdu {
+    let b = enc(p);
+    read_pdu(&mut &b[..], MAXLEN, true).expect("reference PDU decodes").expect("complete PDU")
+}
+
+fn kind_of(p: &Pdu) -> &'static str {
+    match p {
+        Pdu::AssociationRQ(_) => "ARQ",
+        Pdu::AssociationAC(_) => "AAC",
+        Pdu::AssociationRJ(_) => "ARJ",
+        Pdu::PData { .. } => "DATA",
+        Pdu::ReleaseRQ => "RRQ",
+        Pdu::ReleaseRP => "RRP",
+        Pdu::AbortRQ { .. } => "ABORT",
+        Pdu::Unknown { .. } => "UNK",
+    }
+}
+
+fn pdata_bytes(p: &Pdu) -> Vec<u8> {
+    match p {
+        Pdu::PData { data } => data.iter().flat_map(|v| v.data.clone()).collect(),
+        _ => vec![],
+    }
+}
+fn rpdata_bytes(p: &RPdu) -> Vec<u8> {
+    match p {
+        RPdu::PData(v) => v.iter().flat_map(|v| v.data.clone()).collect(),
+        _ => vec![],
+    }
+}
+
+/// the written stream must parse (strictly) into PDUs of exactly these kinds, with nothing left over
+fn expect_kinds(bytes: &[u8], kinds: &[&str]) -> Result<Vec<RPdu>, String> {
+    let (ps, rest) = rp::parse_stream(bytes, &rp::ParseOpts::default())?;
+    if rest != 0 {
+        return Err(format!("{rest} trailing bytes"));
+    }
+    let got: Vec<&str> = ps.iter().map(|p| p.kind()).collect();
+    if got != kinds {
+        return Err(format!("PDU kinds {got:?}, expected {kinds:?}"));
+    }
+    Ok(ps)
+}
+
+fn check_received(got: &Pdu, want: &RPdu) -> Result<(), String> {
+    if kind_of(got) != want.kind() {
+        return Err(format!("received {} expected {}", kind_of(got), want.kind()));
+    }
+    if pdata_bytes(got) != rpdata_bytes(want) {
+        return Err("received P-DATA bytes differ".into());
+    }
+    Ok(())
+}
+
+// ---------------------------------------------------------------------------------------------
+// jobs
+// ---------------------------------------------------------------------------------------------
+
+#[derive(Clone, Copy, Debug, PartialEq, Eq)]
+pub enum Side {
+    Client,
+    Server,
+}
+#[derive(Clone, Copy, Debug, PartialEq, Eq)]
+pub enum AOp {
+    Establish,
+    Send(usize),
+    Receive(usize),
+    Release,
+    Abort,
+    SendPdata,
+    ReceivePdata,
+}
+
+pub enum Job {
+    WritePdu(usize),
+    ReadWire { pdu: usize, asynchronous: bool },
+    ReadWireTwo { asynchronous: bool },
+    Assoc { side: Side, asynchronous: bool, op: AOp },
+    PDataWrite { asynchronous: bool, len: usize },
+    PDataRead { asynchronous: bool, shape: usize },
+}
+
+pub fn jobs() -> Vec<Job> {
+    let n = pdus().len();
+    let mut j = vec![];
+    for i in 0..n {
+        j.push(Job::WritePdu(i));
+        for a in [false, true] {
+            j.push(Job::ReadWire { pdu: i, asynchronous: a });
+        }
+    }
+    for a in [false, true] {
+        j.push(Job::ReadWireTwo { asynchronous: a });
+        for side in [Side::Client, Side::Server] {
+            j.push(Job::Assoc { side, asynchronous: a, op: AOp::Establish });
+            for i in 0..n {
+                // PDUs an established association may carry (the association PDUs are sent by establish)
+                if i >= 3 {
+                    j.push(Job::Assoc { side, asynchronous: a, op: AOp::Send(i) });
+                    j.push(Job::Assoc { side, asynchronous: a, op: AOp::Receive(i) });
+                }
+            }
+            for op in [AOp::Release, AOp::Abort, AOp::SendPdata, AOp::ReceivePdata] {
+                j.push(Job::Assoc { side, asynchronous: a, op });
+            }
+        }
+        // P-Data writer: empty, one byte, exactly one full PDU, one byte more, three PDUs
+        let cap = (SMALL_MAX - 6) as usize;
+        for len in [0usize, 1, cap, cap + 1, 2 * cap + 37] {
+            j.push(Job::PDataWrite { asynchronous: a, len });
+        }
+        for shape in 0..3 {
+            j.push(Job::PDataRead { asynchronous: a, shape });
+        }
+    }
+    j
+}
+
+pub fn job_name(j: &Job) -> String {
+    let names: Vec<&str> = pdus().iter().map(|p| p.0).collect();
+    let sa = |a: bool| if a { "async" } else { "sync" };
+    match j {
+        Job::WritePdu(i) => format!("write_pdu/{}", names[*i]),
+        Job::ReadWire { pdu, asynchronous } => format!("read_pdu_from_wire{}/{}", if *asynchronous { "_async" } else { "" }, names[*pdu]),
+        Job::ReadWireTwo { asynchronous } => format!("read_pdu_from_wire{}/two-pdus", if *asynchronous { "_async" } else { "" }),
+        Job::Assoc { side, asynchronous, op } => {
+            let o = match op {
+                AOp::Establish => "establish".to_string(),
+                AOp::Send(i) => format!("send/{}", names[*i]),
+                AOp::Receive(i) => format!("receive/{}", names[*i]),
+                AOp::Release => "release".into(),
+                AOp::Abort => "abort".into(),
+                AOp::SendPdata => "send_pdata+finish".into(),
+                AOp::ReceivePdata => "receive_pdata".into(),
+            };
+            format!("{side:?}-{}/{o}", sa(*asynchronous)).to_lowercase()
+        }
+        Job::PDataWrite { asynchronous, len } => format!("{}::write_all+finish/len{len}", if *asynchronous { "AsyncPDataWriter" } else { "PDataWriter" }),
+        Job::PDataRead { asynchronous, shape } => format!("PDataReader-{}::read_to_end/shape{shape}", sa(*asynchronous)),
+    }
+}
+
+fn client_opts() -> ClientAssociationOptions<'static> {
+    ClientAssociationOptions::new().calling_ae_title("VX-SCU").called_ae_title("ANY-SCP").with_presentation_context(ABSTRACT, vec![IMPLICIT]).max_pdu_length(MAXLEN)
+}
+fn server_opts() -> ServerAssociationOptions<'static, dicom_ul::association::server::AcceptAny, dicom_ul::association::server::DefaultNegotiation> {
+    ServerAssociationOptions::new().accept_any().ae_title("ANY-SCP").with_abstract_syntax(ABSTRACT).max_pdu_length(MAXLEN)
+}
+
+fn pdata_stream(shape: usize) -> (Vec<u8>, Vec<u8>) {
+    // (wire bytes, expected payload)
+    let payload = noise(match shape {
+        0 => 10,
+        1 => 3000,
+        _ => 2500,
+    });
+    let chunks: Vec<&[u8]> = match shape {
+        0 => vec![&payload[..]],
+        1 => payload.chunks(1000).collect(),
+        _ => vec![&payload[..1], &payload[1..1201], &payload[1201..]],
+    };
+    let n = chunks.len();
+    let pd: Vec<RPdu> = chunks.iter().enumerate().map(|(i, c)| RPdu::PData(vec![RPdv::new(1, false, i + 1 == n, c.to_vec())])).collect();
+    let (bytes, _) = rp::encode_stream(&pd).expect("encode stream");
+    (bytes, payload)
+}
+
+fn check_pdata_output(bytes: &[u8], skip: usize, payload: &[u8]) -> Result<(), String> {
+    let (ps, rest) = rp::parse_stream(bytes, &rp::ParseOpts::default())?;
+    if rest != 0 {
+        return Err(format!("{rest} trailing bytes"));
+    }
+    let ps = &ps[skip..];
+    let mut got: Vec<u8> = vec![];
+    for (i, p) in ps.iter().enumerate() {
+        match p {
+            RPdu::PData(v) => {
+                for pdv in v {
+                    if pdv.is_last() != (i + 1 == ps.len()) {
+                        return Err("last-fragment flag misplaced".into());
+                    }
+                    got.extend_from_slice(&pdv.data);
+                }
+            }
+            o => return Err(format!("unexpected {} PDU", o.kind())),
+        }
+    }
+    if got != payload {
+        return Err("P-DATA payload differs".into());
+    }
+    Ok(())
+}
+
+pub fn run_job(l: &mut Local, job: &Job, all_limit: usize) {
+    let name = job_name(job);
+    let base_id = format!("ul/{name}");
+    let ps = pdus();
+    let op_class = name.split('/').next().unwrap_or("").to_string();
+    let class = json!({"part": "ul", "op": op_class, "ts": "-", "object": name.splitn(2, '/').nth(1).unwrap_or("")});
+    let no_out = |b: &[u8]| if b.is_empty() { Ok(()) } else { Err(format!("{} unexpected bytes written", b.len())) };
+    match job {
+        Job::WritePdu(i) => {
+            let want = ps[*i].1.clone();
+            let pdu = to_ul(&want);
+            let op = |_r: SpyRead, mut w: TapWrite| write_pdu(&mut w, &pdu).map_err(err_s);
+            let validate = |b: &[u8]| {
+                let got = rp::parse(b, &rp::ParseOpts::default())?;
+                if got != want {
+                    return Err(format!("written PDU differs from the reference: {}", got.summary()));
+                }
+                Ok(())
+            };
+            enumerate_duplex(l, &base_id, &class, all_limit, &[], &[], &op, &validate);
+        }
+        Job::ReadWire { pdu, asynchronous } => {
+            let want = ps[*pdu].1.clone();
+            let input = enc(&want);
+            let asy = *asynchronous;
+            let op = |r: SpyRead, _w: TapWrite| -> Result<(), String> {
+                let mut buf = BytesMut::new();
+                let got = if asy {
+                    let mut ar = ARead(r);
+                    block(read_pdu_from_wire_async(&mut ar, &mut buf, MAXLEN, true)).map_err(err_s)?
+                } else {
+                    let mut r = r;
+                    read_pdu_from_wire(&mut r, &mut buf, MAXLEN, true).map_err(err_s)?
+                };
+                check_received(&got, &want)
+            };
+            enumerate_duplex(l, &base_id, &class, all_limit, &input, &[], &op, &no_out);
+        }
+        Job::ReadWireTwo { asynchronous } => {
+            let a = ps[3].1.clone();
+            let b = ps[7].1.clone();
+            let mut input = enc(&a);
+            let first = input.len();
+            input.extend(enc(&b));
+            let asy = *asynchronous;
+            // delivered with a cut inside the second PDU, so the second call must read again
+            let segs = vec![first + 2, input.len() - first - 2];
+            let op = |r: SpyRead, _w: TapWrite| -> Result<(), String> {
+                let mut buf = BytesMut::new();
+                if asy {
+                    let mut ar = ARead(r);
+                    let g1 = block(read_pdu_from_wire_async(&mut ar, &mut buf, MAXLEN, true)).map_err(err_s)?;
+                    check_received(&g1, &a)?;
+                    let g2 = block(read_pdu_from_wire_async(&mut ar, &mut buf, MAXLEN, true)).map_err(err_s)?;
+                    check_received(&g2, &b)
+                } else {
+                    let mut r = r;
+                    let g1 = read_pdu_from_wire(&mut r, &mut buf, MAXLEN, true).map_err(err_s)?;
+                    check_received(&g1, &a)?;
+                    let g2 = read_pdu_from_wire(&mut r, &mut buf, MAXLEN, true).map_err(err_s)?;
+                    check_received(&g2, &b)
+                }
+            };
+            enumerate_duplex(l, &base_id, &class, all_limit, &input, &segs, &op, &no_out);
+        }
+        Job::Assoc { side, asynchronous, op: aop } => run_assoc(l, &base_id, &class, all_limit, *side, *asynchronous, *aop),
+        Job::PDataWrite { asynchronous, len } => {
+            let payload = noise(*len);
+            let asy = *asynchronous;
+            let op = |_r: SpyRead, w: TapWrite| -> Result<(), String> {
+                if asy {
+                    block(async {
+                        let mut pw = AsyncPDataWriter::verif_new(AWrite(w), 1, SMALL_MAX);
+                        pw.write_all(&payload).await.map_err(err_s)?;
+                        pw.finish().await.map_err(err_s)
+                    })
+                } else {
+                    let mut pw = PDataWriter::verif_new(w, 1, SMALL_MAX);
+                    pw.write_all(&payload).map_err(err_s)?;
+                    pw.finish().map_err(err_s)
+                }
+            };
+            let validate = |b: &[u8]| check_pdata_output(b, 0, &payload);
+            enumerate_duplex(l, &base_id, &class, all_limit, &[], &[], &op, &validate);
+        }
+        Job::PDataRead { asynchronous, shape } => {
+            let (input, payload) = pdata_stream(*shape);
+            let asy = *asynchronous;
+            let op = |r: SpyRead, _w: TapWrite| -> Result<(), String> {
+                let mut rb = BytesMut::new();
+                let mut out = vec![];
+                if asy {
+                    block(async {
+                        let mut pr = PDataReader::new(ARead(r), MAXLEN, &mut rb);
+                        AsyncReadExt::read_to_end(&mut pr, &mut out).await.map_err(err_s)
+                    })?;
+                } else {
+                    let mut pr = PDataReader::new(r, MAXLEN, &mut rb);
+                    Read::read_to_end(&mut pr, &mut out).map_err(err_s)?;
+                }
+                if out != payload {
+                    return Err("payload read differs".into());
+                }
+                Ok(())
+            };
+            enumerate_duplex(l, &base_id, &class, all_limit, &input, &[], &op, &no_out);
+        }
+    }
+}
+
+fn run_assoc(l: &mut Local, base_id: &str, class: &Value, all_limit: usize, side: Side, asy: bool, aop: AOp) {
+    let ps = pdus();
+    // what the peer "sent": the association PDU this side waits for, then the operation's input
+    let first = match side {
+        Side::Client => enc(&aac()),
+        Side::Server => enc(&arq()),
+    };
+    let (pd_wire, pd_payload) = pdata_stream(1);
+    let op_input: Vec<u8> = match aop {
+        AOp::Receive(i) => enc(&ps[i].1),
+        AOp::Release => enc(&RPdu::ReleaseRp),
+        AOp::ReceivePdata => pd_wire.clone(),
+        _ => vec![],
+    };
+    let mut input = first.clone();
+    input.extend(&op_input);
+    // the peer's PDUs arrive one read at a time
+    let segs: Vec<usize> = if op_input.is_empty() { vec![first.len()] } else { vec![first.len(), op_input.len()] };
+    let send_payload = noise(2500);
+    let first_out = match side {
+        Side::Client => "ARQ",
+        Side::Server => "AAC",
+    };
+    let validate = |b: &[u8]| -> Result<(), String> {
+        match aop {
+            AOp::Establish | AOp::Receive(_) | AOp::ReceivePdata => expect_kinds(b, &[first_out]).map(|_| ()),
+            AOp::Send(i) => {
+                let got = expect_kinds(b, &[first_out, ps[i].1.kind()])?;
+                if got[1] != ps[i].1 {
+                    return Err(format!("sent PDU differs: {}", got[1].summary()));
+                }
+                Ok(())
+            }
+            AOp::Release => expect_kinds(b, &[first_out, "RRQ"]).map(|_| ()),
+            AOp::Abort => expect_kinds(b, &[first_out, "ABORT"]).map(|_| ()),
+            AOp::SendPdata => check_pdata_output(b, 1, &send_payload),
+        }
+    };
+    macro_rules! drive_sync {
+        ($assoc:expr) => {{
+            let mut a = $assoc;
+            match aop {
+                AOp::Establish => Ok(()),
+                AOp::Send(i) => SyncAssociation::send(&mut a, &to_ul(&ps[i].1)).map_err(err_s),
+                AOp::Receive(i) => {
+                    let got = SyncAssociation::receive(&mut a).map_err(err_s)?;
+                    check_received(&got, &ps[i].1)
+                }
+                AOp::Release => SyncAssociation::release(a).map_err(err_s),
+                AOp::Abort => SyncAssociation::abort(a).map_err(err_s),
+                AOp::SendPdata => {
+                    let mut pw = SyncAssociation::send_pdata(&mut a, 1);
+                    pw.write_all(&send_payload).map_err(err_s)?;
+                    pw.finish().map_err(err_s)
+                }
+                AOp::ReceivePdata => {
+                    let mut out = vec![];
+                    let mut pr = SyncAssociation::receive_pdata(&mut a);
+                    Read::read_to_end(&mut pr, &mut out).map_err(err_s)?;
+                    if out != pd_payload {
+                        return Err("payload read differs".into());
+                    }
+                    Ok(())
+                }
+            }
+        }};
+    }
+    macro_rules! drive_async {
+        ($assoc:expr) => {{
+            let mut a = $assoc;
+            match aop {
+                AOp::Establish => Ok(()),
+                AOp::Send(i) => AsyncAssociation::send(&mut a, &to_ul(&ps[i].1)).await.map_err(err_s),
+                AOp::Receive(i) => {
+                    let got = AsyncAssociation::receive(&mut a).await.map_err(err_s)?;
+                    check_received(&got, &ps[i].1)
+                }
+                AOp::Release => AsyncAssociation::release(a).await.map_err(err_s),
+                AOp::Abort => AsyncAssociation::abort(a).await.map_err(err_s),
+                AOp::SendPdata => {
+                    let mut pw = AsyncAssociation::send_pdata(&mut a, 1);
+                    pw.write_all(&send_payload).await.map_err(err_s)?;
+                    pw.finish().await.map_err(err_s)
+                }
+                AOp::ReceivePdata => {
+                    let mut out = vec![];
+                    let mut pr = AsyncAssociation::receive_pdata(&mut a);
+                    AsyncReadExt::read_to_end(&mut pr, &mut out).await.map_err(err_s)?;
+                    if out != pd_payload {
+                        return Err("payload read differs".into());
+                    }
+                    Ok(())
+                }
+            }
+        }};
+    }
+    let op = |r: SpyRead, w: TapWrite| -> Result<(), String> {
+        match (side, asy) {
+            (Side::Client, false) => {
+                let a = client_opts().verif_establish_over(Duplex { r, w }).map_err(err_s)?;
+                drive_sync!(a)
+            }
+            (Side::Server, false) => {
+                let a = server_opts().verif_establish_over(Duplex { r, w }).map_err(err_s)?;
+                drive_sync!(a)
+            }
+            (Side::Client, true) => block(async {
+                let a = client_opts().verif_establish_over_async(ADuplex { r: ARead(r), w: AWrite(w) }).await.map_err(err_s)?;
+                drive_async!(a)
+            }),
+            (Side::Server, true) => block(async {
+                let a = server_opts().verif_establish_over_async(ADuplex { r: ARead(r), w: AWrite(w) }).await.map_err(err_s)?;
+                drive_async!(a)
+            }),
+        }
+    };
+    enumerate_duplex(l, base_id, class, all_limit, &input, &segs, &op, &validate);
+}
+
+pub fn run(check: &Check, all_limit: usize) {
+    let js = jobs();
+    check.extra("ul_jobs", json!(js.len()));
+    check.par_range(js.len() as u64, |l, i| {
+        run_job(l, &js[i as usize], all_limit);
+    });
+}
